@@ -247,6 +247,9 @@ def run_history(res, seed):
     for _ in range(90):
         dist, par, p = rng.choice(objs)
         k = rng.randint(0 if dist in ("exponential", "poisson") else 1, 40)
+        if dist == "exponential" and rng.random() < 0.25:
+            k = rng.choice([400, 1500, 3000, rng.randint(100, 4000)])      # far tail (the value underflows), then back to small k later
+            res.count("far_tail_evaluations")
         v = float(sut(f"{dist}{tuple(par)}({k})", p, k))
         key = (dist, tuple(float(x) for x in par))
         if key not in exact:
